@@ -404,6 +404,16 @@ func c20GenExact(name string, quick, thorough int) func(r *rand.Rand, tier strin
 			}
 			emit(name + " " + c20Table(r, n, r.Intn(5)))
 		}
+		// larger dimensions around powers of two (block / buffer boundaries such as 128, 256), exact bytes only
+		if name == "tsp" {
+			big := []int{127, 128, 129, 130 + r.Intn(30)} // the Lean tabwriter model is super-linear: ~2 s at n = 129, ~140 s at n = 257
+			if tier == "thorough" {
+				big = append(big, 192+r.Intn(40), 256, 257)
+			}
+			for _, n := range big {
+				emit(name + " " + c20Table(r, n, r.Intn(2)))
+			}
+		}
 	}
 }
 
